@@ -190,6 +190,7 @@ bool VM::executeSingle() {
       this->data[target_off + ret_target] = this->data[source_off + ret_source];
       this->instruction_pointer = this->stack.back().ret_addr;
       this->stack.pop_back();
+      this->data.resize(source_off);
       break;
     }
   }
